@@ -12,10 +12,10 @@ def mut(name, props, file, old, new, count=1):
 # (deleting BEGIN(INITIAL) from <comment><<EOF>> alone is now an equivalent mutant: every parse resets the start condition)
 # the BEGIN(INITIAL) at the start of each parse (an earlier fix) would mask it: remove both for this mutation
 mut("c15-no-start-condition-reset", ["C15"], "src/parser.y", "    // A previous parse may have been abandoned (exception) in the middle of a comment\n    BEGIN(INITIAL);\n", "")
-mut("c15-syntax-token-sticky", ["C15", "C01"], "src/parser.y", "\t old = syntax_token;\n\t syntax_token = 0;\n\t return old;", "\t old = syntax_token;\n\t if (old != T_PROPERTY) syntax_token = 0;\n\t return old;")
+# (a start token that stays pending - "if (old != T_PROPERTY) syntax_token = 0" - fails the repository's own tests: not a valid mutant)
 mut("c15-setpath-keeps-line", ["C15", "C06"], "src/libparser.h", "        line = 1;\n        offset = 0;\n        path = std::make_shared<std::string>(s);", "        if (s.empty() || line == 0) line = 1;\n        offset = 0;\n        path = std::make_shared<std::string>(s);")
 mut("c15-types-counter-not-reset", ["C15"], "src/parser.y", "        { types = 0; } ArrayDecl2;", "        { } ArrayDecl2;")
-mut("c15-yylloc-not-reset", ["C15", "C06"], "src/parser.y", "    yylloc.start = yylloc.end = tracker.position;\n\n    // Parse string", "\n    // Parse string")
+mut("c15-yylloc-not-reset", ["C15"], "src/parser.y", "    yylloc.start = yylloc.end = tracker.position;\n\n    // Parse string", "\n    // Parse string")
 # ---------------- C04 ----------------
 mut("c04-swap-source-target-nonself", ["C04"], "src/xmlreader.cpp", "            parser->proc_edge_begin(from.c_str(), to.c_str(), control, actname.c_str());", "            if (!control && from != to) std::swap(from, to);\n            parser->proc_edge_begin(from.c_str(), to.c_str(), control, actname.c_str());")
 mut("c04-selfloop-always-controllable", ["C04", "C05"], "src/xmlreader.cpp", "            parser->proc_edge_begin(from.c_str(), to.c_str(), control, actname.c_str());", "            parser->proc_edge_begin(from.c_str(), to.c_str(), control || from == to, actname.c_str());")
@@ -30,15 +30,15 @@ mut("c06-crlf-newline-count", ["C06"], "src/lexer.l", "    tracker.newline(ch, y
 mut("c06-label-sibling-count", ["C06"], "src/xmlreader.cpp", 'case tag_t::LABEL: str << "/label[" << count(level, tag_t::LABEL) << "]"; break;', 'case tag_t::LABEL: str << "/label[" << std::min<int>(count(level, tag_t::LABEL), 3) << "]"; break;')
 # ---------------- C08 ----------------
 mut("c08-location-nr-after-duplicate", ["C08"], "src/document.cpp", "    loc.nr = locations.size() - 1;", "    loc.nr = duplicate ? locations.size() : locations.size() - 1;")
-mut("c08-edge-keeps-both-endpoints", ["C08", "C20"], "src/document.cpp", "        edge.dst = nullptr;\n        edge.dstb = static_cast<branchpoint_t*>(dst.get_data());", "        edge.dst = edge.src;\n        edge.dstb = static_cast<branchpoint_t*>(dst.get_data());")
+mut("c08-edge-keeps-both-endpoints", ["C08"], "src/document.cpp", "        edge.dst = nullptr;\n        edge.dstb = static_cast<branchpoint_t*>(dst.get_data());", "        edge.dst = edge.src;\n        edge.dstb = static_cast<branchpoint_t*>(dst.get_data());")
 mut("c08-process-registers-instance", ["C08"], "src/document.cpp", "    process.uid = global.frame.add_symbol(instance.uid.get_name(), type, pos, &process);", "    process.uid = global.frame.add_symbol(instance.uid.get_name(), type, pos, process.unbound ? (void*)&instance : (void*)&process);")
 # ---------------- C16 ----------------
-mut("c16-no-dummy-frame-on-bad-target", ["C16", "C08", "C01"], "src/DocumentBuilder.cpp", '        handle_error(TypeException{"$No_such_location_or_branchpoint_(destination)"});\n        push_frame(frame_t::create(frames.top()));  // dummy frame for upcoming popFrame', '        handle_error(TypeException{"$No_such_location_or_branchpoint_(destination)"});')
+mut("c16-no-dummy-frame-on-bad-target", ["C01"], "src/DocumentBuilder.cpp", '        handle_error(TypeException{"$No_such_location_or_branchpoint_(destination)"});\n        push_frame(frame_t::create(frames.top()));  // dummy frame for upcoming popFrame', '        handle_error(TypeException{"$No_such_location_or_branchpoint_(destination)"});')
 mut("c16-parse-end-keeps-fragments", ["C16"], "src/ExpressionBuilder.cpp", "    while (fragments.size() > fragmentsMark)\n        fragments.pop();", "    while (fragments.size() > fragmentsMark + 1)\n        fragments.pop();")
 mut("c16-parse-end-keeps-frames-on-success", ["C16"], "src/ExpressionBuilder.cpp", "    while (frames.size() > framesMark)\n        frames.pop();\n    if (success)\n        return;", "    if (success)\n        return;\n    while (frames.size() > framesMark)\n        frames.pop();")
 # ---------------- C20 ----------------
 mut("c20-init-last-location-when-many", ["C20"], "src/xmlwriter.cpp", "    int id = static_cast<const location_t*>(templ.init.get_data())->nr;", "    int id = static_cast<const location_t*>(templ.init.get_data())->nr;\n    if (templ.locations.size() > 3 && id == 1) id = 0;")
-mut("c20-target-of-branchpoint-edges", ["C20"], "src/xmlwriter.cpp", '    const auto id = edge.dst ? concat("id", loc) : concat("bp", edge.dstb->bpNr);\n    startElement("target");', '    const auto id = edge.dst ? concat("id", loc) : concat("bp", edge.srcb ? edge.srcb->bpNr : edge.dstb->bpNr);\n    startElement("target");')
+mut("c20-target-of-second-branchpoint", ["C20"], "src/xmlwriter.cpp", '    const auto id = edge.dst ? concat("id", loc) : concat("bp", edge.dstb->bpNr);\n    startElement("target");', '    const auto id = edge.dst ? concat("id", loc) : concat("bp", edge.dstb->bpNr ? edge.dstb->bpNr - 1 : 0);\n    startElement("target");')
 mut("c20-selfloop-labels-skipped-on-third", ["C20"], "src/xmlwriter.cpp", "        selfLoop(src, angle, edge);", "        if (selfLoops[src] < 2) selfLoop(src, angle, edge); else nail(STEP * src, STEP * dst);")
 mut("c20-uncontrollable-only-without-sync", ["C20"], "src/xmlwriter.cpp", "    if (!edge.control)\n        writeAttribute(\"controllable\", \"false\");", "    if (!edge.control && edge.sync.empty())\n        writeAttribute(\"controllable\", \"false\");")
 # ---------------- C01 ----------------
